@@ -62,6 +62,18 @@ class _Linalg:
         if not _anyobj(x):
             return np.linalg.norm(x, ord=ord, axis=axis, **kw)
         x = np.asarray(x)
+        if ord in (1, np.inf) and isinstance(axis, tuple) and len(axis) == 2:
+            # matrix norms: 1 = max column sum (sum over axis[0]); inf = max row sum
+            a = _elementwise(lambda v: abs(tosym(v)), x)
+            sm = np.sum(a, axis=axis[0] if ord == 1 else axis[1], keepdims=True)
+            mx = _reduce_cmp(np.asarray(sm), axis[1] if ord == 1 else axis[0], lambda p, q: bool(tosym(p) >= tosym(q)))
+            return np.squeeze(mx, axis=axis[0] if ord == 1 else axis[1]) if isinstance(mx, np.ndarray) and mx.ndim > 1 else mx
+        if ord == 1:
+            a = _elementwise(lambda v: abs(tosym(v)), x)
+            return np.sum(a, axis=axis)
+        if ord == np.inf:
+            a = _elementwise(lambda v: abs(tosym(v)), x)
+            return _reduce_cmp(np.asarray(a), axis, lambda p, q: bool(tosym(p) >= tosym(q)))
         if ord not in (None, 2):
             raise NotImplementedError('symbolic norm ord=%r' % (ord,))
         s = np.sum(x * x, axis=axis)
